@@ -92,7 +92,7 @@ fn handle(req: &Value) -> Value {
 	let op = req["op"].as_str().unwrap_or("");
 	let r: Result<Value, String> = (|| match op {
 		"tbs" => {
-			let a: Art = serde_json::from_value(req["art"].clone()).map_err(|e| e.to_string())?;
+			let a: Art = serde_json::from_value(req["art"].clone()).map_err(|e| format!("INTERNAL: child cannot read the case (stale child binary?): {e}"))?;
 			let r = no_panic(|| art_tbs(&a))?;
 			let (tbs, sig, full) = r?;
 			Ok(json!({"tbs": hex(&tbs), "sig": hex(&sig), "full": hex(&full)}))
@@ -254,6 +254,9 @@ pub fn check_tbs(a: &Art, info: &mut CaseInfo) -> Result<(), String> {
 	with_peers(|aws, nc| {
 		let r = ask(aws, &req)?;
 		if r["ok"] != json!(true) {
+			if r["err"].as_str().map_or(false, |e| e.starts_with("INTERNAL")) {
+				return Err(r["err"].as_str().unwrap().to_string());
+			}
 			return Err(format!("the aws-lc-rs build fails where the ring build succeeds: {}", r["err"]));
 		}
 		if r["tbs"].as_str() != Some(hex(&tbs).as_str()) {
@@ -274,6 +277,9 @@ pub fn check_tbs(a: &Art, info: &mut CaseInfo) -> Result<(), String> {
 		if with_nc {
 			let r = ask(nc, &req)?;
 			if r["ok"] != json!(true) {
+				if r["err"].as_str().map_or(false, |e| e.starts_with("INTERNAL")) {
+					return Err(r["err"].as_str().unwrap().to_string());
+				}
 				return Err(format!("the crypto-less build fails where the ring build succeeds: {}", r["err"]));
 			}
 			if r["tbs"].as_str() != Some(hex(&tbs).as_str()) {
